@@ -177,6 +177,19 @@ enum Cons {
     Copy(usize, bool),
     /// `.peekable()` on the pipeline, then operations n = next, b = next_back, p = peek, q = peek_back
     PeekOps(Vec<char>),
+    /// `pre` calls (true = next), `c = koto.copy it`, then interleaved calls (on copy?, next?)
+    CopyOps(Vec<bool>, Vec<(bool, bool)>),
+    /// the same on `it = pipeline.peekable()` with the Peekable operations n/b/p/q
+    PeekCopy(Vec<char>, Vec<(bool, char)>),
+}
+
+fn peek_method(o: char) -> &'static str {
+    match o {
+        'n' => "next",
+        'b' => "next_back",
+        'p' => "peek",
+        _ => "peek_back",
+    }
 }
 
 impl Cons {
@@ -190,11 +203,35 @@ impl Cons {
             Cons::Advance(n) => format!("(advance {})", n),
             Cons::Copy(k, f) => format!("(copy {} {})", k, *f as u8),
             Cons::PeekOps(ops) => format!("(peekops{})", ops.iter().map(|o| format!(" {}", o)).collect::<String>()),
+            Cons::CopyOps(pre, post) => format!(
+                "(copyops ({}) ({}))",
+                pre.iter().map(|d| if *d { "n" } else { "b" }).collect::<Vec<_>>().join(" "),
+                post.iter().map(|(w, d)| format!("({} {})", if *w { "c" } else { "o" }, if *d { "n" } else { "b" })).collect::<Vec<_>>().join(" ")
+            ),
+            Cons::PeekCopy(pre, post) => format!(
+                "(peekcopy ({}) ({}))",
+                pre.iter().map(|o| o.to_string()).collect::<Vec<_>>().join(" "),
+                post.iter().map(|(w, o)| format!("({} {})", if *w { "c" } else { "o" }, o)).collect::<Vec<_>>().join(" ")
+            ),
         }
+    }
+    fn uses_back(&self) -> bool {
+        match self {
+            Cons::Calls(ds) => ds.iter().any(|d| !*d),
+            Cons::PeekOps(ops) => ops.iter().any(|o| *o == 'b' || *o == 'q'),
+            Cons::CopyOps(pre, post) => pre.iter().any(|d| !*d) || post.iter().any(|(_, d)| !*d),
+            Cons::PeekCopy(pre, post) => {
+                pre.iter().any(|o| *o == 'b' || *o == 'q') || post.iter().any(|(_, o)| *o == 'b' || *o == 'q')
+            }
+            _ => false,
+        }
+    }
+    fn is_copy(&self) -> bool {
+        matches!(self, Cons::Copy(..) | Cons::CopyOps(..) | Cons::PeekCopy(..))
     }
     /// needs `it` to be a KIterator that keeps its position between statements
     fn needs_iter(&self) -> bool {
-        matches!(self, Cons::Calls(_) | Cons::Advance(_) | Cons::Copy(..))
+        matches!(self, Cons::Calls(_) | Cons::Advance(_) | Cons::Copy(..) | Cons::CopyOps(..))
     }
     /// statements computing the result from the variable `it` (last line = result expression)
     fn koto(&self) -> Vec<String> {
@@ -229,15 +266,42 @@ impl Cons {
                 v.push("r".into());
                 v
             }
+            Cons::CopyOps(pre, post) => {
+                let mut v = vec!["r = []".to_string()];
+                for d in pre {
+                    v.push(format!("x = it.{}()", if *d { "next" } else { "next_back" }));
+                    v.push("r.push(if x then x.get() else 'END')".into());
+                }
+                v.push("c = koto.copy it".into());
+                v.push("rc = []".into());
+                v.push("ro = []".into());
+                for (w, d) in post {
+                    v.push(format!("x = {}.{}()", if *w { "c" } else { "it" }, if *d { "next" } else { "next_back" }));
+                    v.push(format!("{}.push(if x then x.get() else 'END')", if *w { "rc" } else { "ro" }));
+                }
+                v.push("(r, rc, ro)".into());
+                v
+            }
+            Cons::PeekCopy(pre, post) => {
+                let mut v = vec!["r = []".to_string()];
+                for o in pre {
+                    v.push(format!("x = it.{}()", peek_method(*o)));
+                    v.push("r.push(if x then x.get() else 'END')".into());
+                }
+                v.push("c = koto.copy it".into());
+                v.push("rc = []".into());
+                v.push("ro = []".into());
+                for (w, o) in post {
+                    v.push(format!("x = {}.{}()", if *w { "c" } else { "it" }, peek_method(*o)));
+                    v.push(format!("{}.push(if x then x.get() else 'END')", if *w { "rc" } else { "ro" }));
+                }
+                v.push("(r, rc, ro)".into());
+                v
+            }
             Cons::PeekOps(ops) => {
                 let mut v = vec!["r = []".to_string()];
                 for o in ops {
-                    let m = match o {
-                        'n' => "next",
-                        'b' => "next_back",
-                        'p' => "peek",
-                        _ => "peek_back",
-                    };
+                    let m = peek_method(*o);
                     v.push(format!("x = it.{}()", m));
                     v.push("r.push(if x then x.get() else 'END')".into());
                 }
@@ -629,7 +693,7 @@ fn make_case(p: &Pipe, c: &Cons) -> Case {
     let mut lines = r.defs.clone();
     let direct = matches!(c, Cons::Simple("for") | Cons::Simple("unpack"));
     let bare_container = matches!(p, Pipe::Src(Src::List(_) | Src::Tuple(_) | Src::Map(_) | Src::Str(_) | Src::Range(..)));
-    if let Cons::PeekOps(_) = c {
+    if let Cons::PeekOps(_) | Cons::PeekCopy(..) = c {
         lines.push(format!("it = {}.peekable()", r.expr));
     } else if c.needs_iter() || (bare_container && !direct) {
         // a KIterator that keeps its position / the iterator module's function rather than the
@@ -641,14 +705,12 @@ fn make_case(p: &Pipe, c: &Cons) -> Case {
     lines.push("emit 9".into());
     lines.extend(c.koto());
     let script = lines.join("\n");
-    let uses_back = p.any(&|q| matches!(q, Pipe::Reversed(_)))
-        || matches!(c, Cons::Calls(ds) if ds.iter().any(|d| !*d))
-        || matches!(c, Cons::PeekOps(ops) if ops.iter().any(|o| *o == 'b' || *o == 'q'));
+    let uses_back = p.any(&|q| matches!(q, Pipe::Reversed(_))) || c.uses_back();
     Case {
         request: format!("run {} {} {}", FUEL, c.sexp(), r.sexp),
         script,
         host_bytes_back: uses_back && p.has_src(&|s| matches!(s, Src::HostBytes(_))),
-        is_copy: matches!(c, Cons::Copy(..)),
+        is_copy: c.is_copy(),
         nontrivial: p.depth() >= 1 && p.nonempty_source(),
         label: format!("depth={}", p.depth()),
     }
@@ -659,29 +721,29 @@ fn admissible(p: &Pipe, c: &Cons) -> bool {
     if !p.safe() {
         return false;
     }
-    let bounded_consumer = matches!(c, Cons::Calls(_) | Cons::Simple("unpack") | Cons::PeekOps(_));
-    if let Cons::PeekOps(ops) = c {
-        // peek_back / next_back on a Peekable over a forward-only iterator: shape of finding F-C13-4
-        // (and an error for @next objects), not generated unless the finding is fixed
-        if ops.iter().any(|o| *o == 'b' || *o == 'q') && !bidir_pipe(p) && !is_fixed(3) {
-            return false;
-        }
-    }
+    let bounded_consumer = matches!(
+        c,
+        Cons::Calls(_) | Cons::Simple("unpack") | Cons::PeekOps(_) | Cons::CopyOps(..) | Cons::PeekCopy(..)
+    );
     if p.infinite() && !bounded_consumer {
         return false;
     }
-    if let Cons::Calls(ds) = c {
+    if c.uses_back() {
         // `next_back` on a forward-only `@next` object raises an error (MetaIterator::next_back runs
         // the `@next_back` operator unconditionally) where every other forward-only iterator returns
         // null; the property does not speak about it and the model has no failing pulls
-        if ds.iter().any(|d| !*d) && p.has_src(&|s| matches!(s, Src::Obj(_))) {
+        if p.has_src(&|s| matches!(s, Src::Obj(_))) {
+            return false;
+        }
+        // peek_back / next_back on a Peekable over a forward-only iterator: shape of finding F-C13-4
+        if matches!(c, Cons::PeekOps(_) | Cons::PeekCopy(..)) && !bidir_pipe(p) && !is_fixed(3) {
             return false;
         }
     }
-    if let Cons::Copy(..) = c {
-        // shapes of the listed findings F-C13-2 / F-C13-3 (and sources whose state lives in a shared
-        // Koto map): not generated for copy cases
-        if !is_fixed(1) && p.any(&|q| matches!(q, Pipe::Peekable(_))) {
+    if c.is_copy() {
+        // shapes of the listed findings (sources whose position lives in a shared Koto map: F-C13-3;
+        // Peekable's copy: F-C13-2): not generated for copy cases unless the finding is fixed
+        if !is_fixed(1) && (p.any(&|q| matches!(q, Pipe::Peekable(_))) || matches!(c, Cons::PeekCopy(..))) {
             return false;
         }
         if !is_fixed(2) && p.has_src(&|s| matches!(s, Src::Obj(_) | Src::ObjB(_))) {
@@ -728,6 +790,24 @@ fn elems(flavour: usize, n: usize, base: i64) -> Vec<V> {
 
 const SRC_KINDS: usize = 14;
 
+/// Start values of range sources (selected by the flavour index): small, negative, straddling the
+/// i32 limits (KRange stores bounds that fit in i32 compactly and everything else in the 64-bit
+/// `BoundedLarge` representation; each has its own pop_front / pop_back code), far outside i32, and
+/// close to the i64 limits (staying clear of `end + 1` overflow in `as_bounded_range`, which is C06's
+/// finding F-C06-5).
+const RANGE_BASES: &[i64] = &[
+    -1,
+    10,
+    2147483645,           // i32::MAX - 2: short ranges cross the i32 limit (64-bit representation)
+    -2147483650,          // below i32::MIN, crossing it upwards
+    2147483648,           // i32::MAX + 1
+    1099511627776,        // 2^40
+    -1099511627778,       // -(2^40) - 2
+    9223372036854775790,  // i64::MAX - 17
+    -9223372036854775807, // i64::MIN + 1
+    2147483640,           // stays inside i32 (compact representation, large values)
+];
+
 /// source of kind `kind` with `n` elements
 fn source(kind: usize, n: usize, flavour: usize, base: i64) -> Src {
     let xs = elems(flavour, n, base);
@@ -737,12 +817,16 @@ fn source(kind: usize, n: usize, flavour: usize, base: i64) -> Src {
         2 => Src::Gen(xs),
         3 => Src::ObjB(xs),
         4 => Src::Obj(xs),
-        5 => Src::Range(base - 11, base - 11 + n as i64, false),
+        5 => {
+            let b = RANGE_BASES[flavour % RANGE_BASES.len()];
+            Src::Range(b, b + n as i64, false)
+        }
         6 => {
+            let b = RANGE_BASES[flavour % RANGE_BASES.len()];
             if n == 0 {
-                Src::Range(3, 1, true)
+                Src::Range(b + 2, b, true) // descending: empty
             } else {
-                Src::Range(-1, n as i64 - 2, true)
+                Src::Range(b, b + n as i64 - 1, true)
             }
         }
         7 => Src::Str("abédxy".chars().take(n).collect()),
@@ -786,6 +870,7 @@ fn adaptor_table() -> Vec<Ad> {
     for n in [0, 3, 5] {
         v.push(Ad::CycleTake(n));
     }
+    v.push(Ad::Cycle); // endless: only under bounded consumers (call sequences, copies, unpack)
     let seconds = [
         Pipe::Src(Src::Tuple(vec![V::I(20), V::I(21)])),
         Pipe::Src(Src::Gen(vec![V::I(30), V::I(31), V::I(32)])),
@@ -832,13 +917,49 @@ fn consumer_table() -> Vec<Cons> {
     for ops in ["ppnpn", "pnnnnp", "pqnbpq", "qpbnnb", "qqbpnn", "npqbnbq", "bqpnpq"] {
         v.push(Cons::PeekOps(ops.chars().collect()));
     }
+    // back end after partial forward consumption and vice versa
+    for k in 1..=4 {
+        v.push(Cons::Calls(dirs(&format!("{}{}", "n".repeat(k), "b".repeat(5)))));
+        v.push(Cons::Calls(dirs(&format!("{}{}", "b".repeat(k), "n".repeat(5)))));
+    }
+    for k in 0..=3 {
+        v.push(Cons::CopyOps(vec![true; k], copy_post(false)));
+        v.push(Cons::CopyOps(dirs(&format!("{}b", "n".repeat(k))), copy_post(true)));
+    }
+    for pre in ["", "p", "q", "pq", "pn", "ppn", "pqn", "pqb", "npq", "pqnb"] {
+        let back = pre.contains('q') || pre.contains('b');
+        v.push(Cons::PeekCopy(pre.chars().collect(), peek_copy_post(back)));
+    }
+    v.push(Cons::PeekCopy("pq".chars().collect(), peek_copy_post(false)));
     v
+}
+
+fn dirs(s: &str) -> Vec<bool> {
+    s.chars().map(|c| c == 'n').collect()
+}
+
+/// interleaved calls on copy (true) and original (false) after the copy was taken
+fn copy_post(with_back: bool) -> Vec<(bool, bool)> {
+    if with_back {
+        vec![(true, false), (false, true), (true, true), (false, false), (false, false), (true, false), (true, true), (false, true), (true, true), (false, true)]
+    } else {
+        vec![(true, true), (false, true), (false, true), (true, true), (true, true), (false, true), (true, true), (false, true), (false, true), (true, true)]
+    }
+}
+
+fn peek_copy_post(with_back: bool) -> Vec<(bool, char)> {
+    if with_back {
+        vec![(true, 'n'), (false, 'p'), (false, 'n'), (true, 'q'), (true, 'b'), (false, 'q'), (false, 'b'), (true, 'p'), (true, 'n'), (false, 'n')]
+    } else {
+        vec![(true, 'p'), (false, 'n'), (false, 'p'), (true, 'n'), (true, 'n'), (false, 'n'), (true, 'p'), (false, 'p'), (true, 'n'), (false, 'n')]
+    }
 }
 
 fn random_pipe(rng: &mut Rng, depth: usize, max_len: usize, ads: &[Ad]) -> Pipe {
     let n = if rng.chance(1, 8) { max_len + 1 + rng.below(3) } else { rng.below(max_len + 1) };
-    let flavour = rng.weighted(&[6, 2, 2, 2]);
-    let mut p = Pipe::Src(source(rng.below(SRC_KINDS), n, flavour, 10));
+    let kind = rng.below(SRC_KINDS);
+    let flavour = if matches!(kind, 5 | 6) { rng.below(RANGE_BASES.len()) } else { rng.weighted(&[6, 2, 2, 2]) };
+    let mut p = Pipe::Src(source(kind, n, flavour, 10));
     if let Pipe::Src(Src::Map(_)) = &p {
         match rng.below(4) {
             0 => p = Pipe::Keys(Box::new(p)),
@@ -1204,9 +1325,12 @@ fn main() {
     // 1. depth 0: every consumer × every source kind × every length × element flavours
     for kind in 0..SRC_KINDS {
         for n in 0..=max_len {
-            for flavour in 0..4 {
-                // flavours only matter for sources that carry arbitrary elements
-                if flavour > 0 && !matches!(kind, 0 | 1 | 2 | 3 | 4 | 8 | 9) {
+            for flavour in 0..RANGE_BASES.len() {
+                // element flavours for sources that carry arbitrary elements, start values for ranges
+                let ok = flavour == 0
+                    || (flavour < 4 && matches!(kind, 0 | 1 | 2 | 3 | 4 | 8 | 9))
+                    || matches!(kind, 5 | 6);
+                if !ok {
                     continue;
                 }
                 let src = source(kind, n, flavour, 10);
@@ -1238,11 +1362,19 @@ fn main() {
         Cons::Simple("unpack"),
         Cons::PeekOps("pnpqbnq".chars().collect()),
         Cons::PeekOps("ppnnpn".chars().collect()),
+        Cons::Calls(dirs("nbbbb")),
+        Cons::Calls(dirs("nnbbbb")),
+        Cons::Calls(dirs("nnnbbn")),
+        Cons::Calls(dirs("bnnnn")),
+        Cons::Calls(dirs("bbnnnb")),
+        Cons::PeekCopy("pq".chars().collect(), peek_copy_post(true)),
+        Cons::PeekCopy("pn".chars().collect(), peek_copy_post(false)),
     ];
     for kind in 0..SRC_KINDS {
         for n in 0..=max_len {
-            for flavour in [0, 2] {
-                if flavour > 0 && !matches!(kind, 0 | 2 | 3) {
+            for flavour in [0, 2, 5, 7] {
+                let ok = flavour == 0 || (flavour == 2 && matches!(kind, 0 | 2 | 3)) || matches!(kind, 5 | 6);
+                if !ok {
                     continue;
                 }
                 for ad in &ads {
@@ -1250,6 +1382,31 @@ fn main() {
                     for c in &d1_cons {
                         if admissible(&p, c) {
                             cx.push(make_case(&p, c));
+                        }
+                    }
+                }
+            }
+        }
+    }
+    cx.flush();
+
+    // 2b. copy sweep: for every adaptor instance (all of them carry state or wrap a stateful input), the
+    //     copy is taken after k = 0..2n+1 advances — during the first pass, exactly at the end, and past
+    //     the end of the source (second repetition of `cycle`, drained `chain` halves, emptied window
+    //     caches …) — optionally after a call from the back, and then copy and original are advanced
+    //     in an interleaved order, from both ends
+    let sweep_sources: [(usize, usize); 8] = [(1, 0), (2, 0), (0, 2), (5, 2), (6, 5), (7, 0), (12, 0), (9, 0)];
+    for (kind, flavour) in sweep_sources {
+        for n in 0..=max_len {
+            for ad in &ads {
+                let p = apply(ad, Pipe::Src(source(kind, n, flavour, 10)));
+                for k in 0..=(2 * n + 1) {
+                    for c in [
+                        Cons::CopyOps(vec![true; k], copy_post(false)),
+                        Cons::CopyOps(dirs(&format!("{}b", "n".repeat(k))), copy_post(true)),
+                    ] {
+                        if admissible(&p, &c) {
+                            cx.push(make_case(&p, &c));
                         }
                     }
                 }
@@ -1282,7 +1439,7 @@ fn main() {
         json!({"adaptor_instances": ads.len(), "consumer_instances": conss.len(), "source_kinds": SRC_KINDS,
                "source_lengths": format!("0..={}", max_len),
                "depth0": "consumers x kinds x lengths x flavours",
-               "depth1": "adaptor instances x kinds x lengths x 9 consumers",
+               "depth1": "adaptor instances x kinds x lengths x 16 consumers; copy sweep: adaptor instances x 8 sources x lengths x copy position k=0..2n+1 x {forward, with back calls}",
                "depth2": format!("adaptor instances^2 x kinds {:?} x lengths {:?} x to_list", d2_kinds, d2_lens)}),
     );
 
@@ -1300,6 +1457,18 @@ fn main() {
         } else if rng.chance(1, 8) {
             let n = 3 + rng.below(6);
             Cons::PeekOps((0..n).map(|_| *rng.pick(&['n', 'b', 'p', 'q', 'p', 'n'])).collect())
+        } else if rng.chance(1, 5) {
+            let k = rng.below(9);
+            let pre: Vec<bool> = (0..k).map(|_| rng.chance(4, 5)).collect();
+            let m = 4 + rng.below(8);
+            let post: Vec<(bool, bool)> = (0..m).map(|_| (rng.chance(1, 2), rng.chance(3, 4))).collect();
+            Cons::CopyOps(pre, post)
+        } else if rng.chance(1, 10) {
+            let k = rng.below(5);
+            let pre: Vec<char> = (0..k).map(|_| *rng.pick(&['n', 'b', 'p', 'q', 'p'])).collect();
+            let m = 4 + rng.below(6);
+            let post: Vec<(bool, char)> = (0..m).map(|_| (rng.chance(1, 2), *rng.pick(&['n', 'b', 'p', 'q', 'n']))).collect();
+            Cons::PeekCopy(pre, post)
         } else {
             rng.pick(&conss).clone()
         };
